@@ -90,8 +90,19 @@ def drive(cls, cfg, rng):
     if cls == "even-sampling":
         # children are examined by C10; silence the queue here
         pass
+    # watchdog: every configuration here stops within 60 steps; a run that is still going after 4000 has lost its limits
+    cs = tr.continue_simulating
+    def continue_simulating():
+        if tr.nsteps > 4000:
+            raise Runaway("still running after %d steps at time %r" % (tr.nsteps, float(tr.time)))
+        return cs()
+    tr.continue_simulating = continue_simulating
     log = tr.simulate()
     return tr, poss, logged, log
+
+
+class Runaway(Exception):
+    pass
 
 
 def snapshot_oracle(cls, tr, log, mass):
@@ -146,7 +157,11 @@ def run(tier, seed):
     for it in range(ncase):
         cls = CLASSES[it % len(CLASSES)]
         cfg = gen_cfg(rng)
-        tr, poss, logged, log = drive(cls, cfg, rng)
+        try:
+            tr, poss, logged, log = drive(cls, cfg, rng)
+        except Runaway as ex:
+            bad.append(dict(failed="a trajectory ends at the first step at which a limit is reached (%s under max_steps=%r, max_time=%r, t0=%r, dt=%r)" % (ex, cfg["max_steps"], cfg["max_time"], cfg["t0"], cfg["dt"]), case=dict(cls=cls, cfg=cfg)))
+            continue
         info = dict(cls=cls, cfg=cfg, impl_log=logged)
         want, err = timeline_oracle(cfg, poss, logged)
         if err:
